@@ -104,6 +104,23 @@ def batch_c09(tier, sd):
                 p['provides'][0] = list(p['provides'][0]) + [iname]
             p['wrap'] = 'bind-async'      # kessoku.Bind[I](kessoku.Async(kessoku.Provide(f)))
         base.append(d)
+    for i in range(6 if quick else 30):
+        d = ds.random_decl(rng, 'e%03d' % i, nmin=3, nmax=5, zero_in_async=rng.choice([0, 1]))
+        # a provided value whose type implements error (a sentinel, an accumulator): it is a value, not the error result
+        fns = [p for p in d['providers'] if p['kind'] == 'fn' and d['types'][p['provides'][0][0]]['form'] in ('ptr', 'val')
+               and 'fields' not in d['types'][p['provides'][0][0]]]
+        if fns:
+            d['types'][rng.choice(fns)['provides'][0][0]]['is_error'] = True
+        # an Async provider taking an unsupplied input, the context, and another unsupplied input, in this order
+        afn = [p for p in d['providers'] if p['kind'] == 'fn' and p['id'] in ds.needed(d) and 'ctx' not in p['requires']]
+        if afn:
+            p = rng.choice(afn)
+            p['async'] = True
+            a, b = 'AX%d' % i, 'AY%d' % i
+            d['types'][a] = {'form': 'val'}
+            d['types'][b] = {'form': 'ptr'}
+            p['requires'] = [a, 'ctx', b] + list(p['requires'])
+        base.append(d)
     base = [d for d in base if ds.accepts(d)]
     out = []
     for d in base:
